@@ -263,11 +263,11 @@ func stateDump(rn *raft.RawNode) string {
 		if len(w) > 0 {
 			ws = strings.Join(w, ",")
 		}
-		prs = append(prs, fmt.Sprintf("%d:%d:%d:%s:%d:%d:%d:%d:%d:%d:%d:%d:%s", id, p.Match, p.Next, prStateLetter(p.State),
+		prs = append(prs, fmt.Sprintf("%d:%d:%d:%s:%d:%d:%d:%d:%d:%d:%d:%d:%s:%d:%d", id, p.Match, p.Next, prStateLetter(p.State),
 			p.PendingSnapshot, enc.B(p.RecentActive), enc.B(p.Paused), p.SentCommit, enc.B(p.IsLearner),
-			p.InflCount, p.InflBytes, enc.B(p.InflFull), ws))
+			p.InflCount, p.InflBytes, enc.B(p.InflFull), ws, p.InflSize, p.InflMaxBytes))
 	}
-	fmt.Fprintf(&sb, " prs=%s", listOr(prs, "|"))
+	fmt.Fprintf(&sb, " prs=%s tmif=%d tmib=%d", listOr(prs, "|"), d.TrackerMaxInflight, d.TrackerMaxInflightBytes)
 	var vs []string
 	for _, id := range sortedU64(d.Votes) {
 		vs = append(vs, fmt.Sprintf("%d:%d", id, enc.B(d.Votes[id])))
